@@ -59,6 +59,16 @@ def deque_calls(facts, b):
     return out
 
 
+def _range_from(b, t):
+    """k for a call `deque.range_mut(k..)` with a constant k, else None"""
+    if len(t["args"]) < 2:
+        return None
+    e = flow.expr_of(b, t["args"][1], max_depth=6)
+    if e[0] == "agg" and e[1] == ("std::ops::RangeFrom", "RangeFrom") and len(e[2]) == 1 and e[2][0][0] == "const" and isinstance(e[2][0][1], int):
+        return e[2][0][1]
+    return None
+
+
 def check_local(ctx, facts, b):
     ctx.count(bodies=1)
     ctx.rule("WHO-queue: every VecDeque<ActiveItem> method used in seq_join::local is one of " + ", ".join(sorted(ALLOWED)))
@@ -68,6 +78,10 @@ def check_local(ctx, facts, b):
             continue
         for bb, t, m in deque_calls(facts, body):
             n += 1
+            if m == "range_mut" and _range_from(body, t) is not None:
+                # `active.range_mut(k..)` is `active.iter_mut().skip(k)`: a suffix view, in queue order (k is judged by PAIR-poll)
+                ctx.ob("WHO-queue", f"{m}@{body.root}", True, "VecDeque::range_mut(k..): the suffix of the window, in order", site_of(body, bb))
+                continue
             ctx.ob("WHO-queue", f"{m}@{body.root}", m in ALLOWED, f"VecDeque::{m}" + ("" if m in ALLOWED else " is outside the queue discipline of the active window (push_back / pop_front / front_mut / iter_mut): results could be emitted out of input order, or - for partial views such as as_mut_slices().0 - part of the window would never be polled"), site_of(body, bb))
     ctx.floor("WHO-queue", "deque method calls", n, 6)
     dc = deque_calls(facts, b)
@@ -96,6 +110,9 @@ def check_local(ctx, facts, b):
             pend = [(bb, i) for bb, i in wake.pending_sites(b) if flow.dominates(dom, not_ready, bb)]
             skips = [(bb, t) for bb, t in flow.find_calls(b, re.compile(r"Iterator::skip$")) if flow.dominates(dom, not_ready, bb)]
             ok_skip = bool(skips) and all(F.const_int(t["args"][1]) == 1 and "iter_mut" in str(flow.expr_of(b, t["args"][0])) for _, t in skips)
+            if not skips:
+                skips = [(bb, t) for bb, t, m in dc if m == "range_mut" and flow.dominates(dom, not_ready, bb)]
+                ok_skip = bool(skips) and all(_range_from(b, t) == 1 for _, t in skips)
             ctx.ob("PAIR-poll", "skip-one", ok_skip, "the rest of the window is iter_mut().skip(1)" if ok_skip else "the poll-the-rest loop does not cover every item after the head (skip != 1 or not over `active`)", site_of(b, skips[0][0]) if skips else site_of(b, not_ready))
             loop_cr = [bb for bb, t in crs if bb != front_cr and flow.dominates(dom, not_ready, bb)]
             ok_loop = bool(loop_cr) and bool(pend) and bool(skips) and all(flow.dominates(dom, skips[0][0], pb) for pb, _ in pend)
@@ -156,6 +173,10 @@ def check_local(ctx, facts, b):
     for k, (pb, pt) in enumerate(pushes):
         e = flow.expr_of(b, pt["args"][1])
         ok = "Stream::poll_next" in str(e) and "into_future" in str(e)
+        if not ok and e[0] == "call" and e[1] in facts.bodies and "seq_join::local" in e[1] and len(e[2]) == 1:
+            # a constructor of the item type (`ActiveItem::pending(f)`): it must wrap its own parameter's future
+            r_ = str(flow.expr_of(facts.bodies[e[1]], {"cp": [0]}, max_depth=10))
+            ok = "Stream::poll_next" in str(e[2][0]) and "into_future" in r_ and "('arg', 1)" in r_ and "'Pending')" in r_
         ctx.ob("LOOP-refill", f"push-item#{k}", ok, "the item polled from the source is pushed" if ok else "pushed item does not derive from the source poll", site_of(b, pb))
     # ---- END-done
     ctx.rule("END-done: Ready(None) is returned only when no active item is left (None edge of front_mut) and source.is_done() is true")
